@@ -246,6 +246,15 @@ pub fn f_lease(seed: u64, o: &LeaseOpts) -> Plan {
     // Yields do not change a sequential history's outcome but do exercise the hooks; no stalls.
     plan.knobs = knobs(&mut rng, false, 0);
     plan.knobs.pre_advance_us = rng.below(400_000);
+    // a slow server: now and then a request task is held up for seconds between the handler's
+    // look at the clock and the subscription actor (the oracle only uses invoke / return windows)
+    if rng.chance(120) {
+        plan.knobs.long_stall_permille = *rng.pick(&[100u32, 200, 350]);
+        plan.knobs.long_stall_max_us = *rng.pick(&[1_500_000u64, 2_500_000]);
+        if plan.knobs.site_mask == 0 {
+            plan.knobs.site_mask = u64::MAX;
+        }
+    }
     let topic = topic_name("proj-l", 0);
     let sub = sub_name("proj-l", 0, 0);
     let dl_req = *rng.pick(&[-5i32, 0, 1, 9, 10, 10, 11, 17, 60, 599, 600]);
@@ -297,7 +306,8 @@ pub fn f_lease(seed: u64, o: &LeaseOpts) -> Plan {
             7 => Op::Ack { sub: sub.clone(), sel: Sel { mine: false, pick: Pick::None, extra: vec![rng.pick(&["424242", "1", "3", "0"]).to_string()], ..Sel::none() } },
             8 => Op::Nop,
             9 | 10 => {
-                let secs = *rng.pick(&[0i32, 0, 1, 5, 9, 10, 11, 30, 599, 600, 601, 100_000, i32::MAX]);
+                // (with a slow server: short extensions, which a held-up request can outlive)
+                let secs = if plan.knobs.long_stall_permille > 0 && rng.chance(600) { *rng.pick(&[1i32, 1, 2]) } else { *rng.pick(&[0i32, 0, 1, 5, 9, 10, 11, 30, 599, 600, 601, 100_000, i32::MAX]) };
                 if secs > 0 {
                     marks.push(now + (secs.min(600) as u64) * 1_000_000);
                 }
@@ -710,12 +720,30 @@ pub fn f_push(seed: u64, exhaustive_scripts: bool) -> Plan {
         if !exhaustive_scripts && deleted.is_none() && rng.chance(150) {
             let victim = rng.pick(&push_subs).clone();
             deleted = Some(victim.clone());
-            let mut s = vec![Step::after(rng.below(3_000_000), Op::DeleteSub { sub: victim.clone() })];
+            let delete_at = rng.below(3_000_000);
+            let mut s = vec![Step::after(delete_at, Op::DeleteSub { sub: victim.clone() })];
             if rng.chance(600) {
                 // re-created under the same name right away (inside one push interval) or a little later
                 let j: usize = victim.rsplit('-').next().and_then(|x| x.parse().ok()).unwrap_or(0);
-                s.push(Step::after(*rng.pick(&[0u64, 1_000, 50_000, 2_000_000]), Op::CreateSub { sub: victim.clone(), topic: topic.clone(), ack_deadline: dl, push: Some(PushSpec { endpoint: format!("http://push-{j}.test/hook"), attrs: Default::default(), oidc: None }) }));
-                s.push(Step::after(rng.below(100_000), Op::Publish { topic: topic.clone(), msgs: msgs_r(&mut rng, 1, 2, false) }));
+                let create = Op::CreateSub { sub: victim.clone(), topic: topic.clone(), ack_deadline: dl, push: Some(PushSpec { endpoint: format!("http://push-{j}.test/hook"), attrs: Default::default(), oidc: None }) };
+                if rng.chance(350) {
+                    // ... or by another client while the delete is still being processed (a create
+                    // that comes too early is answered ALREADY_EXISTS and tries once more)
+                    // (the delete is slow here: stalls of a few ms at its schedule points)
+                    plan.knobs.site_mask = u64::MAX;
+                    plan.knobs.stall_permille = *rng.pick(&[200u32, 400]);
+                    plan.knobs.stall_max_us = *rng.pick(&[3_000u64, 8_000]);
+                    scripts.push(vec![
+                        Step::after(delete_at + rng.below(3) * rng.below(4_000), create.clone()),
+                        Step::after(rng.range(500, 3_000), create.clone()),
+                        Step::after(rng.range(500, 3_000), create.clone()),
+                        Step::after(rng.range(500, 20_000), create),
+                        Step::after(rng.below(100_000), Op::Publish { topic: topic.clone(), msgs: msgs_r(&mut rng, 1, 2, false) }),
+                    ]);
+                } else {
+                    s.push(Step::after(*rng.pick(&[0u64, 1_000, 50_000, 2_000_000]), create));
+                    s.push(Step::after(rng.below(100_000), Op::Publish { topic: topic.clone(), msgs: msgs_r(&mut rng, 1, 2, false) }));
+                }
             }
             scripts.push(s);
         }
@@ -1405,7 +1433,8 @@ pub fn f_bigbatch(seed: u64) -> Plan {
     }
     plan.phases.push(Phase { scripts: vec![setup], advance_us: 0, audit: false });
     let mut scripts: Vec<Vec<Step>> = Vec::new();
-    if rng.chance(300) {
+    let big_messages = rng.chance(300);
+    if big_messages {
         // a few very large messages instead of very many small ones: responses of several MiB
         let mut s = Vec::new();
         for _ in 0..rng.range(4, 7) {
@@ -1423,11 +1452,16 @@ pub fn f_bigbatch(seed: u64) -> Plan {
         scripts.push(s);
     }
     plan.phases.push(Phase { scripts, advance_us: 0, audit: false });
-    // one sequential consumer per subscription, acknowledging as it goes
+    // one sequential consumer per subscription, acknowledging as it goes (for the very large
+    // messages sometimes a StreamingPull, which gets the whole backlog as one page)
     let mut scripts: Vec<Vec<Step>> = Vec::new();
     for j in 0..n_subs {
         let sub = sub_name("proj-b", 0, j);
         let mut s = Vec::new();
+        if big_messages && rng.chance(500) {
+            scripts.push(vec![Step::new(Op::StreamOpen { slot: 10 + j as u32, sub: sub.clone(), max_msgs: 1000, max_bytes: 0, policy: StreamPolicy::AckAll, window: 0, stall_after: 0, stall_us: 0 })]);
+            continue;
+        }
         let ack_at_end = rng.chance(400);
         for _ in 0..6 {
             s.push(Step::new(Op::Pull { sub: sub.clone(), max: *rng.pick(&[1000i32, 1000, 700, 5000]), immediate: true }));
@@ -1808,6 +1842,61 @@ pub fn f_retopic(seed: u64) -> Plan {
             s.push(Step::new(Op::GetTopic { topic: topic.clone() }));
         }
         plan.phases.push(Phase { scripts: vec![s], advance_us: 0, audit: true });
+    }
+    plan
+}
+
+// ------------------------------------------------------------------------------------------------
+// F-timer: several deliveries with different deadlines on one subscription, one of them moved
+// (extended or cut short) by ModifyAckDeadline, another one handed out afterwards; then nothing but
+// a parked consumer: every lease must end at its own deadline, whatever the expiry timer was armed for.
+// ------------------------------------------------------------------------------------------------
+
+pub fn f_timer(seed: u64) -> Plan {
+    let mut rng = Rng::new(seed);
+    let mut plan = Plan { seed, family: "timer".into(), final_drain: true, health_probe: false, ..Default::default() };
+    plan.tags.push("double_audit".into());
+    plan.knobs = knobs(&mut rng, false, 0);
+    let topic = topic_name("proj-i", 0);
+    let sub = sub_name("proj-i", 0, 0);
+    let dl = *rng.pick(&[10i32, 10, 20]);
+    plan.phases.push(Phase {
+        scripts: vec![vec![
+            Step::new(Op::CreateTopic { topic: topic.clone() }),
+            Step::new(Op::CreateSub { sub: sub.clone(), topic: topic.clone(), ack_deadline: dl, push: None }),
+            Step::new(Op::Publish { topic: topic.clone(), msgs: msgs_r(&mut rng, 2, 4, false) }),
+        ]],
+        advance_us: rng.below(400_000),
+        audit: false,
+    });
+    // delivery A, its deadline moved; delivery B (and maybe C) handed out before or after that
+    // (a quarter of the runs: an "extension" that lands exactly on the deadline the lease already has -
+    // k whole seconds after the hand-out, by ack_deadline - k seconds)
+    let same = rng.chance(250);
+    let k = rng.below(dl as u64 - 1);
+    let moved = if same { dl - k as i32 } else { *rng.pick(&[30i32, 60, 120, 600, 2, 5]) };
+    let mut s = vec![Step::new(Op::Pull { sub: sub.clone(), max: 1, immediate: true })];
+    let b_first = !same && rng.chance(300);
+    if b_first {
+        s.push(Step::after(rng.range(100, 4_000) * 1_000, Op::Pull { sub: sub.clone(), max: 1, immediate: true }));
+    }
+    s.push(Step::after(if same { k * 1_000_000 } else { rng.range(0, 3_000) * 1_000 }, Op::ModAck { sub: sub.clone(), sel: sel_any(Pick::Nth(0)), secs: moved }));
+    if !b_first || rng.chance(500) {
+        s.push(Step::after(rng.range(100, 5_000) * 1_000, Op::Pull { sub: sub.clone(), max: 1, immediate: true }));
+    }
+    plan.phases.push(Phase { scripts: vec![s], advance_us: 0, audit: true });
+    // a consumer parks; then only the clock moves, in steps, with an audit after each
+    let park = if rng.chance(300) {
+        Op::StreamOpen { slot: 1, sub: sub.clone(), max_msgs: 0, max_bytes: 0, policy: StreamPolicy::Hold, window: 0, stall_after: 0, stall_us: 0 }
+    } else {
+        Op::PullBg { slot: 1, sub: sub.clone(), max: *rng.pick(&[1i32, 10]) }
+    };
+    plan.phases.push(Phase { scripts: vec![vec![Step::new(park)]], advance_us: (dl as u64) * 1_000_000 + 1_500_000, audit: true });
+    plan.phases.push(Phase { scripts: vec![], advance_us: *rng.pick(&[3_000_000u64, 8_000_000, 15_000_000]), audit: true });
+    if rng.chance(500) {
+        // a second consumer for what comes back later
+        plan.phases.push(Phase { scripts: vec![vec![Step::new(Op::PullBg { slot: 2, sub: sub.clone(), max: 10 })]], advance_us: (moved.min(130) as u64) * 1_000_000, audit: true });
+        plan.phases.push(Phase { scripts: vec![], advance_us: 0, audit: true });
     }
     plan
 }
